@@ -79,6 +79,8 @@ def case(draw):
     nfiles = sum(1 for v in vis.values() if v[0] == 'f')
     return {'tree': spec, 'manifests': rendered, 'muts': muts,
             'subpath': subpath, 'subpath2': subpath2,
+            # library: the sub-path spelled 'sub/' instead of 'sub'
+            'slash': draw(st.integers(0, 3)) == 0,
             'last_mtime': last_mtime, 'api': api,
             'tags': lay['tags'], 'nfiles': nfiles,
             # verify the still unmutated tree first (state kept between two
@@ -198,7 +200,10 @@ def run_case(desc):
             kwargs = {}
             if desc['last_mtime'] is not None:
                 kwargs['last_mtime'] = desc['last_mtime']
-            oc = gem.verify_lib(root, sub, **kwargs)
+            spelled = sub + '/' if (sub and desc.get('slash')) else sub
+            if spelled != sub:
+                classes.append('trailing-slash')
+            oc = gem.verify_lib(root, spelled, **kwargs)
             v = judge(model, oc, f'assert_directory_verifies({sub!r}, '
                       f'last_mtime={desc["last_mtime"]})')
         else:
